@@ -290,10 +290,15 @@ def outer (S : Schema) (sl : Slice) :
         else atLevel S sl ty level f0 t0 extra
       | _ => atLevel S sl ty level f0 t0 extra
 
+/-- which refusal a bad range gets: a position that does not resolve is a `ValueError` (raised by `resolve`, first);
+    two resolvable positions with `to < from` are refused by `replace()` itself with a ReplaceError -/
+def rangeErr (kids : List Node) (f t : Nat) : Err :=
+  if inRange kids f && inRange kids t then .failed else .valueError
+
 /-- `replace(from, to, slice)` on the children of a node of type `ty` (the document).
-    Guard of the model: `f ≤ t` (the code does not check it; its behaviour there is not modelled). -/
+    A range with `t < f` is refused by `replace()` with a ReplaceError (after both positions resolved). -/
 def replaceKids (S : Schema) (ty : TypeId) (kids : List Node) (f t : Nat) (sl : Slice) : Res (List Node) :=
-  if !(inRange kids f) || !(inRange kids t) || t < f then .error .valueError
+  if !(inRange kids f) || !(inRange kids t) || t < f then .error (rangeErr kids f t)
   else
     let dF := depthAt kids f
     let dT := depthAt kids t
